@@ -25,223 +25,213 @@ from ..regions import exc_class_of
 IDE = "_error.InvalidDefinitionError"
 
 
+def _definition(ctx: Ctx, file_path: str, root: str) -> Any:
+    """DSDLDefinition(file_path, root) evaluated abstractly over syntactic paths: the attributes derived, or the error class"""
+    from ..absint import APath
+
+    d = _build(ctx, "_dsdl_definition.DSDLDefinition", file_path=APath(file_path), root_namespace_path=APath(root))
+    if isinstance(d, str):
+        return d
+    out = {p: _prop(ctx, d, p) for p in ("full_name", "version", "fixed_port_id", "file_path", "root_namespace", "full_namespace", "short_name")}
+    out["version"] = tuple(out["version"]) if isinstance(out["version"], tuple) else out["version"]
+    return out
+
+
 def rule_r1(ctx: Ctx) -> None:
     repo = ctx.repo
     ctx.rule("C15.R1", "file name shape: 3 or 4 dot-separated components before the extension, otherwise FileNameFormatError; namespace = directories relative to the root, root name first, none containing '.'", min_instances=4)
     init = ctx.func("_dsdl_definition.DSDLDefinition.__init__")
-    paths = paths_of(init.node, opaque=["relative_path", "namespace_components", "basename_components"])
-    # how the components are obtained
-    comp_def = [st.value for st in walk_no_nested(init.node) if isinstance(st, ast.Assign) and norm(st.targets[0]) == "basename_components"]
-    good = len(comp_def) == 1 and norm(comp_def[0]) in ('relative_path.name.split(".")[:-1]'.replace('"', "'"), "relative_path.name.split('.')[:-1]", "self._file_path.name.split('.')[:-1]")
-    ctx.check(good, init.short, "components = %s" % (norm(comp_def[0]) if comp_def else "?"), "the base name is split on '.' and the extension dropped", init.where())
-    outcome: Dict[int, str] = {}
-    for n in range(0, 7):
-        taken = []
-        for p in paths:
-            ok = True
-            for c, pol in p.conds:
-                if isinstance(c, tuple):
-                    continue
-                s = norm(c)
-                if "len(basename_components)" in s:
-                    try:
-                        v = bool(Folder({}, repo, init.module, init.cls, lambda e, f: n if norm(e) == "len(basename_components)" else NotImplemented).fold(c))
-                    except Unfoldable as ex:
-                        raise AnalysisError("cannot fold %s: %s" % (s, ex))
-                    if v != pol:
-                        ok = False
-                        break
-            if ok:
-                taken.append(p)
+    root = "/w/ns"
+    # component count
+    shapes = {0: ".dsdl", 1: "T.dsdl", 2: "T.1.dsdl", 3: "T.1.2.dsdl", 4: "77.T.1.2.dsdl", 5: "0.77.T.1.2.dsdl", 6: "0.0.77.T.1.2.dsdl"}
+    outcome = {}
+    for n, base in shapes.items():
+        r = _definition(ctx, "%s/sub/%s" % (root, base), root)
         ctx.count()
-        kinds = set()
-        for p in taken:
-            if p.kind == "raise":
-                k = exc_class_of(repo, init.module, init.cls, p.value)
-                # only the raise guarded by the component count matters here
-                last = [c for c, pol in p.conds if not isinstance(c, tuple)]
-                if last and "len(basename_components)" in norm(last[-1]):
-                    kinds.add("reject:" + (k.name if isinstance(k, ClassInfo) else "?"))
-            else:
-                pid = p.env.get("str_fixed_port_id")
-                kinds.add("accept:port=%s" % ("none" if pid is None or norm(pid) == "None" else "first"))
-        outcome[n] = ",".join(sorted(kinds))
-    want = {0: "reject", 1: "reject", 2: "reject", 3: "accept:port=none", 4: "accept:port=first", 5: "reject", 6: "reject"}
-    bad = {n: o for n, o in outcome.items() if not (o.startswith("reject:FileNameFormatError") if want[n] == "reject" else want[n] in o and "reject:" not in o.split("accept")[0])}
-    ctx.check(not bad, init.short, "component count -> %s" % outcome, "3 components: name.major.minor; 4: port.name.major.minor; anything else is rejected as a malformed file name", init.where(), bad)
-    # unpack order
-    unpack = {}
-    for st in ast.walk(init.node):
-        if isinstance(st, ast.Assign) and isinstance(st.targets[0], ast.Tuple) and norm(st.value) == "basename_components":
-            unpack[len(st.targets[0].elts)] = [norm(t) for t in st.targets[0].elts]
-    ctx.check(unpack.get(4) == ["str_fixed_port_id", "short_name", "str_major_version", "str_minor_version"] and unpack.get(3) == ["short_name", "str_major_version", "str_minor_version"], init.short, "component order: %s" % unpack, "[port.]name.major.minor", init.where())
-    src = norm(init.node)
-    good = "relative_path = self._root_namespace_path.name / self._file_path.relative_to(self._root_namespace_path)" in src and "namespace_components = list(relative_path.parent.parts)" in src
-    ctx.check(good, init.short, "namespace = root name / path relative to the root", "the namespace is the chain of directories from the root namespace directory (inclusive) down to the file", init.where())
-    good = "CompositeType.NAME_COMPONENT_SEPARATOR.join(namespace_components + [str(short_name)])" in src
-    ctx.check(good, init.short, "full name = '.'.join(namespace components + [short name])", "the full name is the namespace plus the short name", init.where())
+        outcome[n] = r if isinstance(r, str) else "port=%s name=%s version=%s" % (r["fixed_port_id"], r["full_name"], r["version"])
+    want = {0: "FileNameFormatError", 1: "FileNameFormatError", 2: "FileNameFormatError", 3: "port=None name=ns.sub.T version=(1, 2)", 4: "port=77 name=ns.sub.T version=(1, 2)", 5: "FileNameFormatError", 6: "FileNameFormatError"}
+    ctx.check(outcome == want, init.short, "component count -> %s" % outcome, "3 components: name.major.minor; 4: port.name.major.minor; anything else is rejected as a malformed file name", init.where(), {n: outcome[n] for n in outcome if outcome[n] != want[n]})
+    # the extension is dropped whatever it is; the components keep their order
+    r = _definition(ctx, root + "/5.Name.10.20.uavcan", root)
+    ctx.count()
+    ctx.check(not isinstance(r, str) and (r["fixed_port_id"], r["short_name"], r["version"]) == (5, "Name", (10, 20)), init.short, "component order: %s" % (r if isinstance(r, str) else (r["fixed_port_id"], r["short_name"], r["version"]),), "[port.]name.major.minor, extension dropped", init.where())
+    # namespace = root directory name + directories below it
+    cases = {
+        (root + "/T.1.0.dsdl", root): "ns.T",
+        (root + "/a/b/T.1.0.dsdl", root): "ns.a.b.T",
+        ("/deep/er/root/x/T.1.0.dsdl", "/deep/er/root"): "root.x.T",
+    }
+    got = {}
+    for (fp, rt), _ in cases.items():
+        r = _definition(ctx, fp, rt)
+        ctx.count()
+        got[(fp, rt)] = r if isinstance(r, str) else r["full_name"]
+    ctx.check(got == cases, init.short, "namespace = root name / path relative to the root", "the namespace is the chain of directories from the root namespace directory (inclusive) down to the file; the full name is the namespace plus the short name", init.where(), {str(k): v for k, v in got.items() if v != cases[k]})
     # separators inside directory names are rejected
-    dot_guard = any(p.kind == "raise" and any(not isinstance(c, tuple) and "NAME_COMPONENT_SEPARATOR in" in norm(c) and pol for c, pol in p.conds) for p in paths)
-    ctx.check(dot_guard, init.short, "'.' in a directory name is rejected", "a namespace component cannot contain the separator", init.where(), nontrivial=False)
+    r1 = _definition(ctx, root + "/a.b/T.1.0.dsdl", root)
+    r2 = _definition(ctx, "/w/n.s/T.1.0.dsdl", "/w/n.s")
+    ctx.count(2)
+    ctx.check(r1 == "FileNameFormatError" and r2 == "FileNameFormatError", init.short, "'.' in a directory name is rejected (%s, %s)" % (r1 if isinstance(r1, str) else "accepted", r2 if isinstance(r2, str) else "accepted"), "a namespace component cannot contain the separator", init.where(), nontrivial=False)
     ffe = ctx.cls("_dsdl_definition.FileNameFormatError")
     ctx.check(repo.is_subclass(ffe, IDE), ffe.short, "is an InvalidDefinitionError", "malformed names are definition errors", ffe.module.relpath, nontrivial=False)
 
 
 def rule_r2(ctx: Ctx) -> None:
-    repo = ctx.repo
-    ctx.rule("C15.R2", "numeric file-name components are converted only after a digits-only test, inside a handler that reports FileNameFormatError", min_instances=3)
+    ctx.rule("C15.R2", "numeric file-name components must be plain decimal digits: anything int() would merely tolerate (signs, blanks, underscores, non-ASCII digits, other bases) is FileNameFormatError", min_instances=3)
     init = ctx.func("_dsdl_definition.DSDLDefinition.__init__")
-    pm = parents_map(init.node)
-    sources = ("str_fixed_port_id", "str_major_version", "str_minor_version")
-    n = 0
-    for c in calls_in(init.node):
-        if not c.args or norm(c.args[0]) not in sources:
-            continue
-        n += 1
-        name = dotted(c.func) or ""
-        strict = False
-        if name == "int":
-            strict = False
-        else:
-            r = repo.resolve_expr(init.module, c.func, init.cls)
-            from ..core import FuncInfo as _F
-
-            if isinstance(r, _F):
-                strict = _digits_only_converter(r)
-        # translating handler
-        handled = False
-        cur: ast.AST = c
-        while cur in pm:
-            par = pm[cur]
-            if isinstance(par, ast.Try) and any(cur is s or cur in ast.walk(s) for s in par.body):
-                for h in par.handlers:
-                    if h.type is not None and dotted(h.type) in ("ValueError", "Exception"):
-                        for r2 in ast.walk(ast.Module(body=h.body, type_ignores=[])):
-                            if isinstance(r2, ast.Raise):
-                                k = exc_class_of(repo, init.module, init.cls, r2.exc)
-                                if isinstance(k, ClassInfo) and k.name == "FileNameFormatError":
-                                    handled = True
-            cur = par
-        ctx.check(strict and handled, init.short, norm(c), "a file-name number must be plain ASCII decimal digits: int() alone also accepts '+1', ' 0', '1_0' and non-ASCII digits", init.where(c), {"digits_only_guard": strict, "translated_to_FileNameFormatError": handled})
-    if n != 3:
-        raise AnalysisError("C15.R2: expected three numeric conversions of file-name components, found %d" % n)
+    root = "/w/ns"
+    good_num = ["0", "7", "007", "255", "65535"]
+    bad_num = ["", "+1", "-1", " 1", "1 ", "1_0", "0x10", "1e3", "1.0"[:1] + "x", "\u0661", "\u00b2", "a"]
+    bad_num = [b.encode().decode("unicode_escape") for b in bad_num]
+    for pos, label in ((0, "port-ID"), (2, "major version"), (3, "minor version")):
+        bad = []
+        for txt in good_num + bad_num:
+            comps = ["9", "T", "1", "2"]
+            comps[pos] = txt
+            if "." in txt or "/" in txt:
+                continue
+            r = _definition(ctx, "%s/%s.dsdl" % (root, ".".join(comps)), root)
+            ctx.count()
+            ok_expected = txt in good_num
+            if ok_expected:
+                val = None if isinstance(r, str) else (r["fixed_port_id"] if pos == 0 else r["version"][0 if pos == 2 else 1])
+                if isinstance(r, str) or val != int(txt):
+                    bad.append({"text": txt, "found": r if isinstance(r, str) else val, "expected": int(txt)})
+            elif r != "FileNameFormatError":
+                bad.append({"text": txt, "found": r if isinstance(r, str) else "accepted", "expected": "FileNameFormatError"})
+        ctx.check(not bad, init.short, "%s: decimal digits only" % label, "the %s in a file name is a plain decimal number; everything else is a malformed file name" % label, init.where(), bad[:4])
 
 
-def _digits_only_converter(fn: FuncInfo) -> bool:
-    """a helper that raises ValueError unless its argument is ASCII digits, then returns int(arg)"""
-    p = fn.params[0]
-    guard = False
-    for st in body_without_docstring(fn.node):
-        if isinstance(st, ast.If) and st.body and isinstance(st.body[-1], ast.Raise):
-            t = norm(st.test)
-            digits = "%s.isdigit()" % p in t or "%s.isdecimal()" % p in t or "fullmatch" in t
-            ascii_ = "%s.isascii()" % p in t or "fullmatch" in t or "[0-9]" in t
-            negated = t.startswith("not ")
-            exc = st.body[-1].exc
-            ename = (dotted(exc.func) if isinstance(exc, ast.Call) else dotted(exc)) if exc is not None else ""
-            if digits and ascii_ and negated and ename in ("ValueError",):
-                guard = True
-    rets = [norm(r.value) for r in walk_no_nested(fn.node) if isinstance(r, ast.Return)]
-    return guard and rets == ["int(%s)" % p]
+def _model_hook(ctx: Ctx, cls: Any) -> Any:
+    from ..absint import ctor_hook, module_call_hook, path_hook
+    from .c02 import _layout_hook
+
+    return path_hook(ctor_hook(ctx, module_call_hook(ctx, cls.module, [], [], results={"check_name": None}, record=["check_name"], base_hook=_layout_hook(ctx, cls.module, cls))))
+
+
+def _build(ctx: Ctx, cls_short: str, **kw: Any) -> Any:
+    """the abstract instance the model class's constructor builds, or the name of the exception it raises"""
+    from ..absint import Raised, construct
+    from ..fold import Unfoldable
+
+    c = ctx.cls(cls_short)
+    try:
+        return construct(ctx, c, hook=_model_hook(ctx, c), **kw)
+    except Raised as r:
+        return r.cls_name
+    except Unfoldable as ex:
+        raise AnalysisError("cannot evaluate the constructor of %s over abstract arguments: %s" % (c.name, ex))
+
+
+def _prop(ctx: Ctx, o: Any, name: str) -> Any:
+    from ..absint import Raised
+    from ..fold import Folder, Unfoldable
+
+    try:
+        v = Folder({"o": o}, ctx.repo, o._cls_.module, o._cls_, _model_hook(ctx, o._cls_)).fold(ast.parse("o." + name, mode="eval").body)
+    except Raised as r:
+        return "raise " + r.cls_name
+    except Unfoldable as ex:
+        raise AnalysisError("cannot evaluate %s.%s: %s" % (o._cls_.name, name, ex))
+    return str(v) if type(v).__name__ == "APath" else v
 
 
 def rule_r3(ctx: Ctx) -> None:
-    repo = ctx.repo
-    ctx.rule("C15.R3", "identity propagation: finalize passes the definition's full name (+ .Request/.Response), version, file path and port-ID (None for request/response) to the composites; DelimitedType copies them from the inner type; the root path is found by walking the namespace components upward", min_instances=5)
-    fin = ctx.func("_data_type_builder.DataTypeBuilder.finalize")
-    D = "self._definition"
-    mk = [c for c in calls_in(fin.node) if isinstance(c.func, ast.Attribute) and c.func.attr == "_make_composite"]
-    svc = [c for c in calls_in(fin.node) if (dotted(c.func) or "").endswith("ServiceType")]
-    if len(mk) != 3 or len(svc) != 1:
-        raise AnalysisError("finalize: expected three _make_composite calls and one ServiceType call")
-    unpack = [st for st in walk_no_nested(fin.node) if isinstance(st, ast.Assign) and isinstance(st.targets[0], ast.Tuple) and norm(st.value) == "self._structs"]
-    names = {}
-    for st in unpack:
-        if len(st.targets[0].elts) == 1:
-            names[norm(st.targets[0].elts[0])] = "message"
-        elif len(st.targets[0].elts) == 2:
-            names[norm(st.targets[0].elts[0])] = "request"
-            names[norm(st.targets[0].elts[1])] = "response"
-    sep_defs = [norm(st.value) for st in walk_no_nested(fin.node) if isinstance(st, ast.Assign) and norm(st.targets[0]) == "sep"]
-    sep = sep_defs[0] if sep_defs else "sep"
-    for c in mk:
-        role = names.get(norm(kwarg(c, "builder") or ast.Constant(value=None)), "?")
-        kw = {k.arg: norm(k.value) for k in c.keywords}
-        want_name = {"message": ["%s.full_name" % D], "request": ["sep.join([%s.full_name, 'Request'])" % D], "response": ["sep.join([%s.full_name, 'Response'])" % D]}.get(role, [])
-        good = kw.get("name") in want_name and kw.get("version") in ("%s.version" % D,) and kw.get("source_file_path") == "%s.file_path" % D
-        good = good and kw.get("fixed_port_id") == ("%s.fixed_port_id" % D if role == "message" else "None") and kw.get("has_parent_service") == ("False" if role == "message" else "True")
-        ctx.check(good, fin.short, "%s: name=%s version=%s port=%s path=%s" % (role, kw.get("name"), kw.get("version"), kw.get("fixed_port_id"), kw.get("source_file_path")), "the %s type carries the identity encoded in the file path" % role, fin.where(c))
-    ctx.check("NAME_COMPONENT_SEPARATOR" in sep, fin.short, "sep = %s" % sep, "request/response names are suffixed with the name separator", fin.where(), nontrivial=False)
-    kw = {k.arg: norm(k.value) for k in svc[0].keywords}
-    ctx.check(kw.get("fixed_port_id") == "%s.fixed_port_id" % D, fin.short, "ServiceType(fixed_port_id=%s)" % kw.get("fixed_port_id"), "the service object carries the port-ID of the file", fin.where(svc[0]))
-    # _make_composite forwards its parameters
-    mkf = ctx.func("_data_type_builder.DataTypeBuilder._make_composite")
-    inner = [c for c in calls_in(mkf.node) if norm(c.func) == "ty"]
-    good = len(inner) == 1 and all(norm(kwarg(inner[0], k) or ast.Constant(value=0)) == k for k in ("name", "version", "deprecated", "fixed_port_id", "source_file_path", "has_parent_service"))
-    ctx.check(good, mkf.short, "ty(name=name, version=version, fixed_port_id=fixed_port_id, source_file_path=source_file_path, ...)", "identity parameters are forwarded unchanged to the composite constructor", mkf.where())
-    # CompositeType stores and returns them
-    comp = ctx.cls("_serializable._composite.CompositeType")
-    init = comp.methods["__init__"]
-    stores = {norm(st.targets[0]): norm(st.value) for st in walk_no_nested(init.node) if isinstance(st, ast.Assign) and len(st.targets) == 1 and norm(st.targets[0]).startswith("self._")}
-    want = {"self._name": "str(name).strip()", "self._version": "version", "self._fixed_port_id": "None if fixed_port_id is None else int(fixed_port_id)", "self._source_file_path": "Path(source_file_path)"}
-    bad = {k: stores.get(k) for k, v in want.items() if stores.get(k) != v}
-    ctx.check(not bad, init.short, "stores name / version / port-ID / path as given", "the model object holds the identity it was given", init.where(), bad)
-    from ..regions import trivial_property_expr
+    from . import builder_common as B
+    from .c11 import _version
 
-    for prop, field in (("full_name", "self._name"), ("version", "self._version"), ("fixed_port_id", "self._fixed_port_id"), ("source_file_path", "self._source_file_path"), ("source_file_path_to_root", "self._path_to_root_namespace")):
-        e = trivial_property_expr(repo, comp, prop)
-        ctx.check(e is not None and norm(e) == field, comp.short + "." + prop, norm(e) if e is not None else "?", "accessor returns the stored identity", comp.module.relpath, nontrivial=False)
-    # ServiceType / DelimitedType derive identity from their parts
-    dl = ctx.cls("_serializable._composite.DelimitedType")
-    sup = [c for c in calls_in(dl.methods["__init__"].node) if isinstance(c.func, ast.Attribute) and c.func.attr == "__init__" and "super" in norm(c.func.value)]
-    kw = {k.arg: norm(k.value) for k in sup[0].keywords} if sup else {}
-    want = {"name": "inner.full_name", "version": "inner.version", "fixed_port_id": "inner.fixed_port_id", "source_file_path": "inner.source_file_path", "has_parent_service": "inner.has_parent_service", "attributes": "inner.attributes", "deprecated": "inner.deprecated", "doc": "inner.doc"}
-    ctx.check(kw == want, dl.short + ".__init__", "copies identity from the inner type", "a delimited wrapper has the identity of what it wraps", dl.module.relpath, {k: kw.get(k) for k in want if kw.get(k) != want[k]})
-    sv = ctx.cls("_serializable._composite.ServiceType")
-    sup = [c for c in calls_in(sv.methods["__init__"].node) if isinstance(c.func, ast.Attribute) and c.func.attr == "__init__" and "super" in norm(c.func.value)]
-    kw = {k.arg: norm(k.value) for k in sup[0].keywords} if sup else {}
-    name_def = [norm(st.value) for st in walk_no_nested(sv.methods["__init__"].node) if isinstance(st, ast.Assign) and norm(st.targets[0]) == "name"]
-    good = name_def == ["request.full_namespace"] and kw.get("name") == "name" and kw.get("version") == "request.version" and kw.get("fixed_port_id") == "fixed_port_id" and kw.get("source_file_path") == "request.source_file_path"
-    ctx.check(good, sv.short + ".__init__", "name = request's namespace (the service's full name), version/path from the request, port-ID as given", "the service object's identity is that of the file", sv.module.relpath)
-    # search_up_for_root
-    su = init.nested.get("search_up_for_root")
-    if su is None:
-        raise AnalysisError("anchor search_up_for_root missing")
-    src = norm(su.node)
-    p0, p1 = su.params[0], su.params[1]
-    good = ("if %s[-1] != %s.stem" % (p1, p0)) in src and ("if len(%s) == 1" % p1) in src and ("return search_up_for_root(%s.parent, %s[:-1])" % (p0, p1)) in src and ("return %s" % p0) in src
-    call = [c for c in calls_in(init.node) if dotted(c.func) == "search_up_for_root"]
-    arg_ok = len(call) == 1 and norm(call[0].args[0]) == "self._source_file_path.parent" and norm(call[0].args[1]) == "self.namespace_components if not self._has_parent_service else self.namespace_components[:-1]"
-    ctx.check(good and arg_ok, su.short, "walks one directory per namespace component, checking each name", "the root directory is exactly len(namespace) levels above the file and every level's name matches", su.where())
+    ctx.rule("C15.R3", "identity propagation: finalize passes the definition's full name (+ .Request/.Response), version, file path and port-ID (None for request/response) to the composites; the composites hold and return them; DelimitedType / ServiceType derive theirs from their parts; the root path is found by walking the namespace components upward", min_instances=5)
+    fin = ctx.func("_data_type_builder.DataTypeBuilder.finalize")
+    d = B.definition_sym("ns.sub.T", 3, 7, 321, "/root/ns/sub/321.T.3.7.dsdl")
+    # ---- what the builder hands over (message, then service)
+    r = B.run_builder(ctx, [("on_directive", (1, "extent", ("Rational", 64)))], d, allow_unregulated=True)
+    if r.raised:
+        raise AnalysisError("finalize of a message raised %s" % r.raised)
+    leaf = [kw for k, kw in r.ctor_log if k in ("StructureType", "UnionType")]
+    want = {"name": "ns.sub.T", "version": (3, 7), "fixed_port_id": 321, "source_file_path": "/root/ns/sub/321.T.3.7.dsdl", "has_parent_service": False}
+    got = {k: (tuple(leaf[0].get(k)) if k == "version" and leaf and leaf[0].get(k) is not None else (leaf[0].get(k) if leaf else None)) for k in want}
+    ctx.check(len(leaf) == 1 and got == want, fin.short, "message: %s" % got, "the message type carries the identity encoded in the file path", fin.where(), {"expected": want})
+    r = B.run_builder(ctx, [("on_directive", (1, "sealed", None)), ("on_service_response_marker", ()), ("on_directive", (3, "sealed", None))], d, allow_unregulated=True)
+    if r.raised:
+        raise AnalysisError("finalize of a service raised %s" % r.raised)
+    leafs = [kw for k, kw in r.ctor_log if k in ("StructureType", "UnionType")]
+    svc = [kw for k, kw in r.ctor_log if k == "ServiceType"]
+    for role, idx in (("request", 0), ("response", 1)):
+        kw = leafs[idx] if len(leafs) == 2 else {}
+        want = {"name": "ns.sub.T." + role.capitalize(), "version": (3, 7), "fixed_port_id": None, "source_file_path": "/root/ns/sub/321.T.3.7.dsdl", "has_parent_service": True}
+        got = {k: (tuple(kw.get(k)) if k == "version" and kw.get(k) is not None else kw.get(k)) for k in want}
+        ctx.check(got == want, fin.short, "%s: %s" % (role, got), "the %s type carries the identity encoded in the file path (no port-ID of its own)" % role, fin.where(), {"expected": want})
+    ctx.check(len(svc) == 1 and svc[0].get("fixed_port_id") == 321, fin.short, "ServiceType(fixed_port_id=%s)" % (svc[0].get("fixed_port_id") if svc else "?"), "the service object carries the port-ID of the file", fin.where())
+    # ---- the composites hold and return what they were given; the root directory is found by walking up
+    comp_where = ctx.cls("_serializable._composite.CompositeType").module.relpath
+    base = dict(version=_version(3, 7), attributes=[], deprecated=False, doc="")
+    s = _build(ctx, "_serializable._composite.StructureType", name="ns.sub.T", fixed_port_id=321, source_file_path="/root/ns/sub/321.T.3.7.dsdl", has_parent_service=False, **base)
+    if isinstance(s, str):
+        raise AnalysisError("StructureType(...) over abstract arguments raised %s" % s)
+    got = {p: _prop(ctx, s, p) for p in ("full_name", "version", "fixed_port_id", "source_file_path", "source_file_path_to_root")}
+    got["version"] = tuple(got["version"]) if isinstance(got["version"], tuple) else got["version"]
+    want = {"full_name": "ns.sub.T", "version": (3, 7), "fixed_port_id": 321, "source_file_path": "/root/ns/sub/321.T.3.7.dsdl", "source_file_path_to_root": "/root/ns"}
+    ctx.check(got == want, "_serializable._composite.CompositeType", "accessors return the identity given: %s" % got, "the model object holds the identity it was given; the root directory is len(namespace) levels above the file", comp_where, {"expected": want})
+    z = _build(ctx, "_serializable._composite.StructureType", name="ns.sub.T", fixed_port_id=0, source_file_path="/root/ns/sub/0.T.3.7.dsdl", has_parent_service=False, **base)
+    zp = z if isinstance(z, str) else (_prop(ctx, z, "fixed_port_id"), _prop(ctx, z, "has_fixed_port_id"))
+    ctx.check(zp == (0, True), "_serializable._composite.CompositeType", "port-ID 0 is a port-ID: %s" % (zp,), "the smallest port-ID is kept, not mistaken for 'none'", comp_where)
+    rq = _build(ctx, "_serializable._composite.StructureType", name="ns.sub.T.Request", fixed_port_id=None, source_file_path="/root/ns/sub/321.T.3.7.dsdl", has_parent_service=True, **base)
+    rs = _build(ctx, "_serializable._composite.StructureType", name="ns.sub.T.Response", fixed_port_id=None, source_file_path="/root/ns/sub/321.T.3.7.dsdl", has_parent_service=True, **base)
+    ctx.check(not isinstance(rq, str) and _prop(ctx, rq, "source_file_path_to_root") == "/root/ns", "_serializable._composite.CompositeType", "request half: root = %s" % (rq if isinstance(rq, str) else _prop(ctx, rq, "source_file_path_to_root")), "the halves of a service live in the service's file: their last name component is not a directory", comp_where)
+    # directory names must match the namespace components, level by level
+    outcomes = {}
+    for label, path in (("match", "/x/ns/sub/T.3.7.dsdl"), ("leaf mismatch", "/x/ns/other/T.3.7.dsdl"), ("root mismatch", "/x/zz/sub/T.3.7.dsdl")):
+        o = _build(ctx, "_serializable._composite.StructureType", name="ns.sub.T", fixed_port_id=None, source_file_path=path, has_parent_service=False, **base)
+        outcomes[label] = o if isinstance(o, str) else _prop(ctx, o, "source_file_path_to_root")
+        ctx.count()
+    ctx.check(outcomes == {"match": "/x/ns", "leaf mismatch": "InvalidNameError", "root mismatch": "InvalidNameError"}, "_serializable._composite.CompositeType.__init__", "walks one directory per namespace component, checking each name: %s" % outcomes, "the root directory is exactly len(namespace) levels above the file and every level's name matches", comp_where)
+    # ---- wrappers derive identity from their parts
+    dl = _build(ctx, "_serializable._composite.DelimitedType", inner=s, extent=64)
+    if isinstance(dl, str):
+        raise AnalysisError("DelimitedType(...) over abstract arguments raised %s" % dl)
+    gd = {p: _prop(ctx, dl, p) for p in ("full_name", "version", "fixed_port_id", "source_file_path", "source_file_path_to_root", "deprecated", "has_parent_service")}
+    gs = {p: _prop(ctx, s, p) for p in gd}
+    ctx.check(gd == gs, "_serializable._composite.DelimitedType", "copies identity from the inner type", "a delimited wrapper has the identity of what it wraps", comp_where, {"wrapper": gd, "inner": gs})
+    if isinstance(rq, str) or isinstance(rs, str):
+        raise AnalysisError("request / response construction raised %s / %s" % (rq, rs))
+    sv = _build(ctx, "_serializable._composite.ServiceType", request=rq, response=rs, fixed_port_id=321)
+    if isinstance(sv, str):
+        raise AnalysisError("ServiceType(...) over abstract arguments raised %s" % sv)
+    gv = {p: _prop(ctx, sv, p) for p in ("full_name", "version", "fixed_port_id", "source_file_path")}
+    gv["version"] = tuple(gv["version"]) if isinstance(gv["version"], tuple) else gv["version"]
+    want = {"full_name": "ns.sub.T", "version": (3, 7), "fixed_port_id": 321, "source_file_path": "/root/ns/sub/321.T.3.7.dsdl"}
+    ctx.check(gv == want, "_serializable._composite.ServiceType", "name = request's namespace (the service's full name), version/path from the request, port-ID as given: %s" % gv, "the service object's identity is that of the file", comp_where, {"expected": want})
 
 
 def rule_r4(ctx: Ctx) -> None:
-    ctx.rule("C15.R4", "bare-name root inference scans the path outermost-first and uses the listed names through membership only (independent of the order of the names)", min_instances=1)
+    from ..absint import APath, Raised, call_fn
+    from ..fold import Unfoldable
+
+    ctx.rule("C15.R4", "bare-name root inference: when several listed names occur in the path the outermost directory wins, whatever the order of the names", min_instances=1)
     fn = ctx.func("_dsdl_definition.DSDLDefinition._infer_path_to_root_from_first_found")
-    dp, roots = fn.params[1], fn.params[2]
-    # the last strategy: names are roots with a single path part
-    names_def = [st for st in walk_no_nested(fn.node) if isinstance(st, ast.Assign) and isinstance(st.value, ast.ListComp) and "len(" in norm(st.value) and ".parts) == 1" in norm(st.value)]
-    if len(names_def) != 1:
-        ctx.fail(fn.short, "bare-name strategy", "cannot find the list of bare root names", where=fn.where())
-        return
-    names_var = norm(names_def[0].targets[0])
-    parts_def = [st for st in walk_no_nested(fn.node) if isinstance(st, ast.Assign) and norm(st.value) in ("list(%s.parent.parts)" % dp, "%s.parent.parts" % dp)]
-    parts_var = norm(parts_def[0].targets[0]) if parts_def else None
-    loops = [st for st in walk_no_nested(fn.node) if isinstance(st, ast.For) and st.lineno > names_def[0].lineno]
-    good = False
-    detail: Any = None
-    for lp in loops:
-        it = norm(lp.iter)
-        over_path = parts_var is not None and parts_var in it and names_var not in it
-        tests = [norm(s.test) for s in lp.body if isinstance(s, ast.If)]
-        member = any(t.endswith(" in %s" % names_var) for t in tests)
-        rets = [norm(r.value) for s in lp.body for r in ast.walk(s) if isinstance(r, ast.Return)]
-        detail = {"iterates": it, "tests": tests, "returns": rets}
-        if over_path and member and rets and all("parts[:i + 1]" in r.replace(parts_var, "parts") or "[: i + 1]" in r for r in rets):
-            good = True
-    # the names list must not be iterated to choose the root
-    iter_names = [norm(lp.iter) for lp in loops if names_var in norm(lp.iter)]
-    ctx.check(good and not iter_names, fn.short, "for i, part in enumerate(<path parts>): if part in <names>: return <path up to part>", "when several listed names occur in the path the outermost directory wins, whatever the order of the names", fn.where(), detail)
+    cls = fn.cls
+    outcomes = {}
+    cases = [
+        ("/a/outer/x/inner/T.1.0.dsdl", ["inner", "outer"], "/a/outer"),
+        ("/a/outer/x/inner/T.1.0.dsdl", ["outer", "inner"], "/a/outer"),
+        ("/a/outer/x/inner/T.1.0.dsdl", ["inner"], "/a/outer/x/inner"),
+        ("/a/ns/ns/T.1.0.dsdl", ["ns"], "/a/ns"),
+        ("/a/outer/x/inner/T.1.0.dsdl", ["nope"], "PathInferenceError"),
+    ]
+    bad = []
+    for path, names, want in cases:
+        args = [cls, APath(path), [APath(n) for n in names]] if fn.is_classmethod else [APath(path), [APath(n) for n in names]]
+        try:
+            r = call_fn(ctx, fn, args, hook=_model_hook(ctx, cls), keep=())
+            got = str(r)
+        except Raised as ex:
+            got = ex.cls_name
+        except Unfoldable as ex:
+            raise AnalysisError("%s: cannot evaluate over syntactic paths: %s" % (fn.short, ex))
+        ctx.count()
+        if got != want:
+            bad.append({"path": path, "names": names, "found": got, "expected": want})
+    ctx.check(not bad, fn.short, "root inferred from bare names, over orders of the names", "when several listed names occur in the path the outermost directory wins, whatever the order of the names", fn.where(), bad)
 
 
 def run(ctx: Ctx) -> None:
